@@ -534,16 +534,16 @@ func RunC06(tier string, args []string) int {
 		samples = []string{c06Case{}.String(), c.String()}
 	}
 	cov := fw.Coverage{
-		"evaluations":         evals,
-		"distinct_nontrivial": nontrivial.N(),
-		"rule":                "shape grammar: full product version(3) x entries(6) x nextUpdate(2) x crlExtensions(6) x encoding(3) x revocation-date form(2); serial forms, entry extensions, issuer shapes and signature algorithms each crossed with version(2) x crlExtensions(2) x encoding(3) x entries{3,30}; alignment sweep pad=1..4095 (DER) / 1..4095|12287 (PEM LF, CRLF) for 3- and 30-entry documents. A case is non-trivial when it is inside the premise (well-formed or must-be-rejected shape); distinct by parameter tuple.",
-		"samples":             samples,
-		"core_cases":          coreN,
+		"evaluations":            evals,
+		"distinct_nontrivial":    nontrivial.N(),
+		"rule":                   "shape grammar: full product version(3) x entries(6) x nextUpdate(2) x crlExtensions(6) x encoding(3) x revocation-date form(2); serial forms, entry extensions, issuer shapes and signature algorithms each crossed with version(2) x crlExtensions(2) x encoding(3) x entries{3,30}; alignment sweep pad=1..4095 (DER) / 1..4095|12287 (PEM LF, CRLF) for 3- and 30-entry documents. A case is non-trivial when it is inside the premise (well-formed or must-be-rejected shape); distinct by parameter tuple.",
+		"samples":                samples,
+		"core_cases":             coreN,
 		"single_dimension_cases": single,
-		"alignment_cases":     sweep,
-		"premise_false":       premiseFalse,
-		"outcome_classes":     outcomes.Counts(),
-		"exhaustive":          true,
+		"alignment_cases":        sweep,
+		"premise_false":          premiseFalse,
+		"outcome_classes":        outcomes.Counts(),
+		"exhaustive":             true,
 	}
 	return chk.Finish(cov)
 }
